@@ -235,3 +235,34 @@ def scaleDem (c : Int) (i : Inst) : Inst :=
   { i with dL := fun j => c * i.dL j, dB := fun j => c * i.dB j, cap := c * i.cap }
 
 end Rl4co.Mtvrp
+
+/-! ### the checker with its three known omissions repaired (each repair can be switched on separately) -/
+namespace Rl4co.Mtvrp
+
+/-- repair 2: for open routes the depot deadline does not bind (the vehicle never drives back) -/
+def relaxDepot (i : Inst) : Inst :=
+  if i.openR then { i with late := fun j => if j = 0 then none else i.late j } else i
+
+/-- repair 1: the test "no linehaul customer after a backhaul customer", per route -/
+def orderTest (i : Inst) (as : List Nat) : Bool :=
+  (routes as).all (fun r => decide (r.Pairwise (fun a b => ¬ (0 < i.dB a ∧ 0 < i.dL b))))
+
+structure Repairs where
+  order     : Bool   -- test the linehaul / backhaul order
+  openDepot : Bool   -- do not apply the depot deadline to open routes
+  finalLeg  : Bool   -- replay the way back of the trailing route as well (append a depot visit)
+
+/-- `check_solution_validity` with the selected repairs; `checkR ⟨false, false, false⟩ = check` -/
+def checkR (fx : Repairs) (i : Inst) (as : List Nat) : Bool :=
+  (if fx.order then orderTest i as else true)
+  && check (if fx.openDepot then relaxDepot i else i) (if fx.finalLeg then as ++ [0] else as)
+
+end Rl4co.Mtvrp
+
+namespace Rl4co.Mtvrp
+
+/-- the stored instance whose `load_data(scale=True)` image is `loaded`: `load_data` divides both demand kinds by
+`capacity_original = k` and leaves everything else — `vehicle_capacity` included — as stored -/
+def storedOf (k : Int) (loaded : Inst) : Inst := { scaleDem k loaded with cap := loaded.cap }
+
+end Rl4co.Mtvrp
